@@ -1466,7 +1466,8 @@ class C11(Prop):
             if r.random() < 0.3:
                 sp = r.choice(spellings[:-1])
                 cases.append(Case('zi%d' % k, ('$[%s]' % sp).encode(), arr))
-                cases[-1].keyc = [(1, [ord(ch) for ch in sp])]
+                # digits only: an index step; with a sign: the one-entry union the grammar reads it as (C11_union_from_text)
+                cases[-1].keyc = [(1, [ord(ch) for ch in sp])] if sp.isdigit() else [(6, [('i', [ord(ch) for ch in sp])])]
                 expect.append(py_index_ref(n, int(sp)))
                 continue
             ss, se = r.choice(spellings), r.choice(spellings)
